@@ -491,6 +491,7 @@ pub fn run(ctx: &mut Ctx) {
         };
         let k = rng.range(1, 4);
         let mut gens: Vec<Vec<usize>> = (0..k).map(|_| rp(&mut rng)).collect();
+        let mut adds_override: Option<Vec<Vec<usize>>> = None;
         if rng.chance(1, 2) {
             // block-structured sets: the slots are split into two blocks (at a random position of a random arrangement);
             // some generators permute inside one block only (they fix the other block, possibly a whole orbit, pointwise),
@@ -523,8 +524,22 @@ pub fn run(ctx: &mut Ctx) {
             }
             rng.shuffle(&mut g);
             gens = g;
+            // the permutation added afterwards is block-local in two thirds of these cases, and the stored generators then
+            // often are the both-blocks one alone (a subdirect product): the new element's support may miss the orbit of
+            // the first base point altogether, and its conjugates by the old elements must still be found
+            if rng.chance(2, 3) {
+                if rng.chance(1, 2) {
+                    gens.truncate(1);
+                    gens[0] = compose(&within(&mut rng, ba), &within(&mut rng, bb));
+                }
+                let blk = if rng.chance(1, 2) { ba } else { bb };
+                adds_override = Some(vec![within(&mut rng, blk)]);
+            }
         }
-        let adds: Vec<Vec<usize>> = (0..rng.range(1, 2)).map(|_| rp(&mut rng)).collect();
+        let adds: Vec<Vec<usize>> = match adds_override {
+            Some(a) => a,
+            None => (0..rng.range(1, 2)).map(|_| rp(&mut rng)).collect(),
+        };
         let qs: Vec<Vec<usize>> = (0..40).map(|_| rp(&mut rng)).collect();
         ctx.emit(exec(omega, gens, adds, qs));
     }
